@@ -9,6 +9,7 @@ overflow and out-of-range must be errors, x/0 and x%0 NULL; a row evaluated alon
 same value as in the batch.
 SQL leg: constant expressions are evaluated with the optimizer on (folded at plan time) and off
 (evaluated at run time): same rows, or both fail."""
+import os
 import json
 import random
 import subprocess
@@ -182,6 +183,10 @@ def run(tier, seed):
     rep.floor("constant expressions compared", tot["ok"], nfold * 4)
     rep.assumptions = ["NaN and infinities are not used as operands of comparisons (SQL leaves them implementation-defined)",
                        "float results are compared by bits except for the sign of zero"]
+    if tier == "thorough" and not os.environ.get("VERIF_OVERLAY"):
+        import sanitize
+        sanitize.overlay(rep, "asan", timeout=5400)
+        sanitize.miri(rep, [["ops", seed, 60, sh] for sh in range(16)], timeout=3000)
     return rep.finish()
 
 
